@@ -50,6 +50,7 @@ import (
 	"io"
 	"iter"
 	"regexp/syntax"
+	"strconv"
 	"strings"
 	"unicode"
 	"unicode/utf8"
@@ -135,6 +136,15 @@ func Compile(pattern string) (*Regex, error) {
 	}, nil
 }
 
+// quotePattern quotes a pattern for a panic message the way stdlib regexp does:
+// back quotes when possible, a Go string literal otherwise.
+func quotePattern(s string) string {
+	if strconv.CanBackquote(s) {
+		return "`" + s + "`"
+	}
+	return strconv.Quote(s)
+}
+
 // MustCompile compiles a regular expression pattern and panics if it fails.
 //
 // This is useful for patterns known to be valid at compile time.
@@ -145,7 +155,7 @@ func Compile(pattern string) (*Regex, error) {
 func MustCompile(pattern string) *Regex {
 	re, err := Compile(pattern)
 	if err != nil {
-		panic("regexp: Compile(`" + pattern + "`): " + err.Error())
+		panic("regexp: Compile(" + quotePattern(pattern) + "): " + err.Error())
 	}
 	return re
 }
@@ -182,7 +192,7 @@ func CompilePOSIX(pattern string) (*Regex, error) {
 func MustCompilePOSIX(pattern string) *Regex {
 	re, err := CompilePOSIX(pattern)
 	if err != nil {
-		panic("regexp: CompilePOSIX(`" + pattern + "`): " + err.Error())
+		panic("regexp: CompilePOSIX(" + quotePattern(pattern) + "): " + err.Error())
 	}
 	return re
 }
